@@ -28,7 +28,7 @@ SupportedOps ==
 
 \* operators whose semantics this module dispatches (the program generators draw from these)
 Catalogue == {"Add", "Sub", "Mul", "Relu", "Abs", "Gemm", "MatMul", "Flatten", "Transpose", "Concat", "Reshape", "Squeeze", "Unsqueeze",
-              "Shape", "Slice", "Gather", "Expand", "Constant", "Conv", "RNN", "GRU", "LSTM", "ReduceMax", "ReduceMin", "ArgMax", "Scaler"}
+              "Shape", "Slice", "Gather", "Expand", "Constant", "Conv", "RNN", "GRU", "LSTM", "ReduceMax", "ReduceMin", "ArgMax", "Scaler", "LinearRegressor"}
 
 In_(inputs, i) == IF i <= Len(inputs) THEN inputs[i] ELSE Nil
 SliceIntsOf(inputs) ==
@@ -59,4 +59,5 @@ NodeSem(op, attrs, inputs, nout) ==
      [] op \in {"ReduceMax", "ReduceMin"} -> SemReduce(op, inputs[1], attrs)
      [] op = "ArgMax"    -> SemArgMax(inputs[1], attrs)
      [] op = "Scaler"    -> SemScaler(inputs[1], attrs)
+     [] op = "LinearRegressor" -> SemLinearRegressor(inputs[1], attrs)
 =============================================================================
